@@ -272,6 +272,8 @@ def in_flag_sub_class(c):
     """python mirror (conservative: a subset) of the boolean class `flag_sub_class` of C01_no_panic_flag_subs: every
     subcommand that has a short flag has no child with a short flag, and none of its positionals allows hyphen values
     or negative numbers.  (The generator never sets the command-level AllowHyphenValues / AllowNegativeNumbers.)"""
+    if {"allow_hyphen_values", "allow_negative_numbers"} & set(c.get("settings", [])):
+        return False      # command-level (deprecated) settings reach the positionals of every level below: stay conservative
     for s in c["subs"]:
         if _has_short_flag(s):
             if any(_has_short_flag(t) for t in s["subs"]):
@@ -755,8 +757,19 @@ def streams(tier, rng):
 
 def classify_known(stream, case, impl, failure):
     if stream in ("parse-flagsub-class", "parse-single-clusters", "parse-no-resume"):
-        return None       # definitions resp. lines of the classes of C01_no_panic_flag_subs / C01_no_panic_single_clusters:
-                          # the recorded finding cannot occur there
+        return None       # definitions resp. lines of the classes of C01_no_panic_flag_subs / C01_no_panic_single_clusters /
+                          # C01_no_panic_no_resume: the recorded finding cannot occur there
     if impl and impl.startswith("PANIC") and KNOWN_SKIP_MSG in impl:
+        # round 5: the family is enclosed by theorems (C01_entry_point_summary): the assertion needs a definition outside
+        # flag_sub_class AND a cluster in which a short flag-subcommand letter of the definition is followed by more.  The
+        # message alone is no longer enough: anywhere else the same panic is reported as a violation.
+        try:
+            cmd, argv = decode_case(case)
+            letters = {x.encode() for x in tree_letters(cmd)}
+            toks = argv if "no_binary_name" in cmd["settings"] else argv[1:]
+            if in_flag_sub_class(cmd) or not any(resumes(t, letters) for t in toks):
+                return None
+        except Exception:
+            return None
         return "C01-flag-subcmd-skip"
     return None
